@@ -9,7 +9,7 @@ by the packrat cache) while the real Module.parseString runs.
   random inputs:   s <= 3000 * tokens + 50000
 CPU time is recorded for information only; no wall-clock number is a verdict.
 """
-import random, time
+import os, random, time
 from vlib import monitors, render, gen, spec as S
 
 PID = 'C19'
@@ -134,6 +134,7 @@ def worker(ctx):
         for v in range(1 if tier == 'quick' and fam not in ('ns', 'tt', 'args') else 3):
             jobs.append(('depth', fam, v))
     jobs.append(('size', 'decl', 0))
+    jobs.append(('files', 'matlab', 0))
     nrand = 48 if tier == 'quick' else 800
     for j in range(nrand):
         jobs.append(('rand', j, 0))
@@ -170,6 +171,46 @@ def worker(ctx):
                     break
             if ctx.index == 0 and idx == ctx.index:
                 acc.sample({'family': fam, 'steps_by_depth': series})
+        elif kind == 'files':
+            # the same declarations spread over k interface files: the MATLAB generator reads the list as one text, so
+            # its parsing work must stay close to that of the single file and grow linearly with k
+            import shutil, tempfile
+            from gtwrap.matlab_wrapper import MatlabWrapper
+            series, single = {}, {}
+            tmp = tempfile.mkdtemp(prefix='verif_c19_')
+            try:
+                for k in ([2, 4, 8, 16] if tier == 'quick' else [2, 4, 8, 16, 32, 64]):
+                    parts = ['namespace part%d {\n%s\n}\n' % (i, '\n'.join(
+                        'class K%d_%d { K%d_%d(); void f(int a, const std::vector<double>& b = {1,2}) const; double p; };' % (i, j, i, j)
+                        for j in range(3))) for i in range(k)]
+                    paths = []
+                    for i, ptxt in enumerate(parts):
+                        pth = os.path.join(tmp, 'k%d_f%d.i' % (k, i))
+                        open(pth, 'w').write(ptxt)
+                        paths.append(pth)
+                    one = os.path.join(tmp, 'k%d_all.i' % k)
+                    open(one, 'w').write(''.join(parts))
+                    for label, srcs, sink in (('list', paths, series), ('single', [one], single)):
+                        out = os.path.join(tmp, 'out_%s_%d' % (label, k))
+                        try:
+                            _, st = monitors.STEPS.measure(
+                                lambda: MatlabWrapper(module_name='m', ignore_classes=[]).wrap(list(srcs), path=out), cap=ABS_CAP * 4)
+                        except monitors.StepBudgetExceeded:
+                            st = ABS_CAP * 4 + 1
+                        sink[k] = st
+                        acc.count('rule_applications', min(st, ABS_CAP))
+                    acc.case('files/%d' % k, True)
+                    if series[k] > 1.6 * single[k] + 2000:
+                        acc.violation({'kind': 'files', 'k': k}, {'what': 'wrapping k files costs more parsing work than wrapping the same text as one file',
+                                                                  'list': series, 'single': single})
+                        break
+                for k in series:
+                    if 2 * k in series and series[2 * k] > 2.6 * series[k]:
+                        acc.violation({'kind': 'files', 'k': k}, {'what': 'parsing work s(2k) > 2.6*s(k) in the number of files', 'series': series})
+                        break
+                acc.sample({'family': 'files', 'steps_list': series, 'steps_single': single})
+            finally:
+                shutil.rmtree(tmp, ignore_errors=True)
         elif kind == 'size':
             sizes = [10, 20, 40, 80] if tier == 'quick' else [10, 20, 40, 80, 160, 320, 640]
             series = {}
